@@ -162,12 +162,15 @@ def parseStep (s : String) : Option DTok :=
 
 /-- inputs the model does not claim: resource index ≥ 4, exponent of the remote > 7, a request
 code that is not a request, a handler answering with a request code or with a block option
-number among its plain options, plain options 23/27 in the request -/
+number among its plain options, plain options 23/27 in the request, a non-message returned by a
+resource without block-wise assembly -/
 def stepInModel : DTok → Bool
   | .fin res _ _ => res < 4
   | .req d =>
     let i := d.inp 0
     d.res < 4 && i.req.remote.maxSzx ≤ 7 && isRequestCode i.req.code &&
+    -- a resource that does its own block handling puts what `render` returns on the pipe as it is
+    !(i.render i.req == .junk && !i.assemble) &&
     !isRequestCode (i.render i.req).code &&
     i.req.opts.all (fun o => o.1 != 23 && o.1 != 27) &&
     (outcomeOpts (i.render i.req)).all (fun o => o.1 != 23 && o.1 != 27)
